@@ -52,7 +52,7 @@ func H_C06_struct() {
 	if k&2 != 0 {
 		ps = append(ps, Pos{1, 1, 0})
 	}
-	o := Opts{}
+	o := Opts{Started: 2} // reward start time of each asset symbolic: the slash applies to warming-up assets too
 	if two == 1 {
 		o.NDenoms = 2
 		ps = append(ps, Pos{0, 0, 1})
